@@ -669,6 +669,8 @@ class Engine(ExprMixin):
             item = seq.at(k)
             self.assign(s.target, (SNum(k + start, True), item) if enum else item, env, cls)
             env["__k__%d" % key[1]] = k
+            if hook is not None and hasattr(hook, "on_body_start"):
+                hook.on_body_start(self, env, k)
             try:
                 self.exec_block(s.body, env, cls)
             except ContinueEx:
